@@ -28,15 +28,20 @@ from autofit.text.formatter import TextFormatter
 from autofit.tools.util import info_whitespace
 
 
-def make_class(index, names):
+def make_class(index, names, name, base):
+    """A component class with the given constructor arguments.  `name` is its __name__ AND __qualname__ (module
+    `__main__`): several classes of one history may carry the same name with different constructors, as classes
+    returned by a class factory do; `base` (a class made earlier, or None) is its parent, whose constructor it
+    overrides."""
     src = "def __init__(self, %s):\n" % ", ".join("%s=0.0" % n for n in names)
     for n in names:
         src += "    self.%s = %s\n" % (n, n)
     ns = {}
     exec(src, ns)
-    cls = type("K%d" % index, (), {"__init__": ns["__init__"]})
-    cls.__module__ = "__main__"          # picklable by reference
-    globals()["K%d" % index] = cls
+    ns["__init__"].__qualname__ = name + ".__init__"
+    cls = type(name, (base,) if base is not None else (), {"__init__": ns["__init__"]})
+    cls.__module__ = "__main__"          # picklable by reference (the first class of a name; see World.dumps)
+    cls.__qualname__ = name
     return cls
 
 
@@ -52,9 +57,25 @@ def recursion_cache():
     return None      # refactored away: the driver then cannot clear / inspect it (reported as None)
 
 
+SERIAL = [0]
+
+
 class World:
     def __init__(self, case):
-        self.classes = [make_class(i, names) for i, names in enumerate(case["classes"])]
+        # names are private to a history (suffix = number of the history in this process): what one history observes
+        # never depends on the classes of another history, so every reported history replays alone
+        SERIAL[0] += 1
+        n = len(case["classes"])
+        self.names = ["%s_%d" % (nm, SERIAL[0]) for nm in (case.get("class_names") or ["K%d" % i for i in range(n)])]
+        bases = case.get("bases") or [None] * n
+        self.classes = []
+        for i, names in enumerate(case["classes"]):
+            self.classes.append(make_class(i, names, self.names[i], None if bases[i] is None else self.classes[bases[i]]))
+        self.registered = {}
+        for nm, cls in zip(self.names, self.classes):
+            if nm not in self.registered:            # `__main__.<name>` resolves to the FIRST class of that name
+                self.registered[nm] = cls
+                globals()[nm] = cls
         self.ctor = case["classes"]
         self.priors = {}
         self.pid_of = {}
@@ -64,6 +85,39 @@ class World:
             self.priors[pid] = p
         self.objs = []
         self.keep = []
+
+    def close(self):
+        for nm in self.registered:
+            globals().pop(nm, None)
+
+    def pickle_round_trip(self, obj):
+        """pickle by reference where `__main__.<name>` is the class; the other classes of a shared name travel as
+        persistent ids (a class is not the business of the model code under test)"""
+        import io
+        import pickle
+        world = self
+
+        class P(pickle.Pickler):
+            def persistent_id(self, x):
+                if isinstance(x, type):
+                    for i, c in enumerate(world.classes):
+                        if x is c and world.registered[world.names[i]] is not c:
+                            return i
+                return None
+
+        class U(pickle.Unpickler):
+            def persistent_load(self, pid):
+                return world.classes[pid]
+
+        buf = io.BytesIO()
+        P(buf).dump(obj)
+        return U(io.BytesIO(buf.getvalue())).load()
+
+    def ctor_names_of(self, obj):
+        """Model.constructor_argument_names as the model reports it now (None for other objects)"""
+        if isinstance(obj, Model):
+            return [str(x) for x in obj.constructor_argument_names]
+        return None
 
     # -- abstract <-> concrete -------------------------------------------------
     def val(self, v):
@@ -189,10 +243,40 @@ class World:
             return self.inst(m.instance_from_unit_vector([x / 4.0 for x in q[1]]))
         if k == "allpaths":
             return [[list(p) for p in g] for g in m.all_paths]
+        if k == "raw":
+            return self.raw(m, q)
         if k == "models":
             cls = object if q[1] is None else self.classes[q[1]]
             return [[[], self.leaf(x)] for x in m.models_with_type(cls, include_zero_dimension=bool(q[2]))]
         raise ValueError(k)
+
+    def raw_call(self, m, q):
+        """the exact object one of the seven frozen_cache functions returns, spelled as the library spells the call"""
+        what = q[1]
+        if what == "pit":
+            if q[2] == "prior":
+                return m.path_instance_tuples_for_class(Prior)
+            if q[2] == "tuple":
+                return m.path_instance_tuples_for_class(TuplePrior)
+            if q[2] == "param":
+                return m.path_instance_tuples_for_class((Prior, float, tuple), ignore_children=True)
+        if what == "attr":
+            return m.attribute_tuples_with_type(Prior)
+        if what == "unique":
+            return m.unique_prior_tuples
+        if what == "direct":
+            return m.direct_tuples_with_type({"prior": Prior, "float": float, "tuple": TuplePrior, "pm": AbstractPriorModel}[q[2]])
+        if what == "mtt":
+            return m.model_tuples_with_type(object if q[2] is None else self.classes[q[2]], include_zero_dimension=bool(q[3]))
+        raise ValueError(q)
+
+    def raw(self, m, q):
+        r = self.raw_call(m, q)
+        if not isinstance(r, list):
+            raise ValueError("not a list")
+        if q[1] == "pit":
+            return [[list(p), self.leaf(x)] for p, x in r]
+        return [[[str(t[0])], self.leaf(t[1])] for t in r]
 
     def shadow(self, m, q):
         try:
@@ -225,10 +309,15 @@ class World:
             obj.id = 1000 + len(self.objs)        # ModelObject.id, fixed by the harness (Model.v: oidn)
             self.objs.append(obj)
             extra["attrs"] = self.abstract_attrs(obj)
+            extra["ctor"] = self.ctor_names_of(obj)
             return None, extra
         obj = self.objs[op[1]]
         if k == "query":
-            ans = self.query(obj, op[2])
+            try:
+                ans = self.query(obj, op[2])
+            finally:
+                self.last_ctor = self.ctor_names_of(obj)
+            extra["ctor"] = self.last_ctor
             return ans, extra
         if k == "freeze":
             obj.freeze()
@@ -258,8 +347,7 @@ class World:
         elif k == "copy":
             how = op[2] if len(op) > 2 else "deep"
             if how == "pickle":
-                import pickle
-                twin = pickle.loads(pickle.dumps(obj))
+                twin = self.pickle_round_trip(obj)
             else:
                 twin = obj.copy()
             first = len(self.objs)
@@ -271,6 +359,15 @@ class World:
             extra["flags"] = [bool(getattr(o, "_is_frozen", False)) for o in self.objs]
         elif k == "failwalk":
             obj.has_instance("not-a-type")
+        elif k == "scramble":
+            # a caller that edits the list it was handed (reverse, drop the last entry); the model is not touched
+            r = self.raw_call(obj, op[2])
+            if isinstance(r, list):
+                r.reverse()
+                if r:
+                    r.pop()
+            elif isinstance(r, dict):
+                r.clear()
         elif k == "derive":
             try:
                 self.keep.append(obj.mapper_from_prior_arguments({p: p for p in obj.priors}))
@@ -285,10 +382,36 @@ def run_case(case):
     rc = recursion_cache()
     if rc is not None:
         rc.cache.clear()
+    # The history is replayed twice on fresh objects.  The FIRST replay is the history and nothing else: what is reported
+    # and compared is its outcome.  The second replay additionally evaluates every query on an unfrozen deep copy (the
+    # "shadow", which never sees a cache); copying and thawing are themselves accepted modifications of some model in
+    # the process (they advance the modification counter that invalidates every frozen cache), so they must not happen
+    # inside the replay whose caches are under test.  The direct outcomes of the second replay are reported as well
+    # (`with_shadow`): unrelated copies in between must not change any answer either.
     w = World(case)
+    try:
+        res = run_ops(w, case, rc, shadows=False)
+    finally:
+        w.close()
+    if rc is not None:
+        rc.cache.clear()
+    w = World(case)
+    try:
+        res2 = run_ops(w, case, rc, shadows=True)
+    finally:
+        w.close()
+    for rec, rec2 in zip(res["outs"], res2["outs"]):
+        if "shadow" in rec2:
+            rec["shadow"] = rec2["shadow"]
+            rec["with_shadow"] = {"exc": rec2["exc"]} if "exc" in rec2 else {"ok": rec2.get("ok")}
+    return res
+
+
+def run_ops(w, case, rc, shadows):
     outs = []
     for op in case["ops"]:
         rec = {}
+        w.last_ctor = None
         if op[0] != "new" and not (0 <= op[1] < len(w.objs)) or any(
                 isinstance(x, list) and len(x) == 2 and x[0] == "r" and not (0 <= x[1] < len(w.objs)) for x in op):
             outs.append({"exc": "Skipped", "msg": "refers to an object an earlier failed operation did not create"})
@@ -300,9 +423,11 @@ def run_case(case):
         except BaseException as e:  # noqa
             rec["exc"] = exc_name(e)
             rec["msg"] = str(e)[:160]
+            if op[0] == "query":
+                rec["ctor"] = w.last_ctor
             if op[0] == "derive":
                 rec["flags"] = [bool(getattr(o, "_is_frozen", False)) for o in w.objs]
-        if op[0] == "query":
+        if op[0] == "query" and shadows:
             rec["shadow"] = w.shadow(w.objs[op[1]], op[2])
         outs.append(rec)
     frozen = [bool(getattr(o, "_is_frozen", False)) for o in w.objs]
